@@ -231,6 +231,28 @@ theorem writer_order :
       < Restic.Gen.Archiver_Snapshot_calls.idxOf "data.SaveSnapshot" ∧
     "data.SaveSnapshot" ∈ Restic.Gen.Archiver_Snapshot_calls := by decide
 
+/-- `copy` as a writer: `copyTreeBatched` saves snapshots only after `WithBlobUploader` has
+    returned (i.e. after the flush of packs and index) — no `copySaveSnapshot` inside the uploader
+    callback (calls inside the callback end before the `WithBlobUploader` call expression ends). -/
+theorem copy_snapshot_after_flush :
+    (Restic.Gen.copyTreeBatched_calls.filter (· == "copySaveSnapshot")).length = 1 ∧
+    Restic.Gen.copyTreeBatched_calls.idxOf "dstRepo.WithBlobUploader"
+      < Restic.Gen.copyTreeBatched_calls.idxOf "copySaveSnapshot" ∧
+    "dstRepo.WithBlobUploader" ∈ Restic.Gen.copyTreeBatched_calls := by decide
+
+/-- the long-running reader: the exact call shape of fuse `updateSnapshots`. A flat call list
+    cannot see a new condition around `LoadIndex`, so the whole shape is pinned: listing
+    (`FindAll`), sort, hash, then `LoadIndex`, then `makeDirs` — any restructuring of this function
+    stops this proof and sends the check into the search with the `fuse` correspondence stream. -/
+theorem fuse_refresh_shape :
+    Restic.Gen.fuse_updateSnapshots_calls =
+      ["d.mutex.Lock", "d.mutex.Unlock", "time.Since", "append", "d.root.cfg.Filter.FindAll",
+       "si.Time.Equal", "si.ID", "sj.ID", "bytes.Compare", "si.Time.Before", "sort.Slice", "sha256.New",
+       "sn.ID", "h.Write", "h.Sum", "time.Now", "d.root.repo.LoadIndex", "time.Now", "d.makeDirs"] := by decide
+
+example : refreshReloads [.listSnapshots, .other, .listIndex] = true := by decide
+example : refreshReloads [.listIndex, .listSnapshots] = false := by decide
+
 /-! ### Non-vacuity: two writers interleaved, a reader in between -/
 
 def bA : Blob := ⟨1, 5, 0, 10⟩
